@@ -830,6 +830,18 @@ pub fn run(ctx: &Ctx) {
                 Ok(o) => o,
                 Err(e) if e.starts_with("BLOCKED") => {
                     let _ = std::fs::remove_dir_all(&outer);
+                    // a wall-clock observation on a possibly overloaded machine is not a verdict by
+                    // itself: the script is run once more; only a run that sits idle again is blocked
+                    match run_real(&script, &dir, Mode::Plain) {
+                        Err(e2) if e2.starts_with("BLOCKED") => {}
+                        _ => {
+                            let _ = std::fs::remove_dir_all(&outer);
+                            ctx.inconclusive.fetch_add(1, std::sync::atomic::Ordering::Relaxed);
+                            ctx.count("real_runs_idle_once_but_not_when_repeated", 1);
+                            return;
+                        }
+                    }
+                    let _ = std::fs::remove_dir_all(&outer);
                     // does the simulated run finish? then the two systems differ
                     let (virt, _) = run_virtual(&script, &dir);
                     ctx.eval();
